@@ -129,4 +129,101 @@ theorem read_faithful_expect_sock (s : Sock) (q : WfReq) (rest : Bytes) (hw : We
     simp only [ht]
     rfl
 
+/-! ### chunked framing -/
+
+/-- `HeadOk` without the clause that excludes `Expect: 100-continue` -/
+structure HeadOkX (m t p : Bytes) (hs : List (Bytes × Bytes)) : Prop where
+  method_ne : m ≠ []
+  method_ok : ∀ c ∈ m, c ≠ 32 ∧ c ≠ 0 ∧ c ≠ 10
+  target_ok : ∀ c ∈ t, c ≠ 32 ∧ c ≠ 0 ∧ c ≠ 10
+  proto_ok : ValueOk p
+  line_len : m.length + t.length + p.length + 3 ≤ 16001
+  headers_ok : HeadersOk hs
+
+/-- `read_head` for any `Expect` field: the interim answer is written, then the body is read from what follows -/
+theorem read_head_x (s : Sock) (m t p : Bytes) (hs : List (Bytes × Bytes)) (tail : Bytes) (hw : HeadOkX m t p hs)
+    (hte : (hasHeader (hdrDic hs) sTransferEncoding && !isChunked (header (hdrDic hs) sTransferEncoding)) = false)
+    (he : s.err = 0) (hc : s.closed = false)
+    (hi : s.inp = m ++ 32 :: (t ++ 32 :: (p ++ 13 :: 10 :: (hdrBlock hs ++ 13 :: 10 :: tail)))) :
+    AslModel.HttpParse.read s =
+      (match readBody { s with inp := tail, out := s.out ++ interim (hdrDic hs) } (hdrDic hs) with
+       | .error e => .error e
+       | .ok b => match parseTarget t with
+         | .error e => .error e
+         | .ok tg => .ok (mkReq m t p tg (hdrDic hs) b.2, b.1)) := by
+  obtain ⟨hp0, hp1, hp2, hp3⟩ := hw.proto_ok
+  have hline : s.readLine =
+      (m ++ 32 :: (t ++ 32 :: (p ++ [13])), { s with inp := hdrBlock hs ++ 13 :: 10 :: tail }) := by
+    apply readLine_line _ _ _ he hc
+    · rw [hi]; simp
+    · intro c hcm
+      simp only [List.mem_append, List.mem_cons, List.not_mem_nil, or_false] at hcm
+      rcases hcm with h | rfl | h | rfl | h | rfl
+      · exact (hw.method_ok c h).2.2
+      · decide
+      · exact (hw.target_ok c h).2.2
+      · decide
+      · exact hp1 c h
+      · decide
+    · have := hw.line_len
+      simp only [List.length_append, List.length_cons, List.length_nil]; omega
+  unfold AslModel.HttpParse.read
+  simp only [hline]
+  have hne : ((m ++ 32 :: (t ++ 32 :: (p ++ [13]))).length == 0) = false := by simp
+  have he' : (s.err != 0) = false := by simp [he]
+  simp only [he', hne, Bool.or_self, Bool.false_eq_true, if_false]
+  rw [parseRequestLine_faithful m t (p ++ [13])
+    (fun c hc => ⟨(hw.method_ok c hc).1, (hw.method_ok c hc).2.1⟩)
+    (fun c hc => ⟨(hw.target_ok c hc).1, (hw.target_ok c hc).2.1⟩)]
+  simp only [bind, Except.bind]
+  have hproto : trimmed (p ++ [13]) = p := by
+    have := trimmed_core [] p [13] (by simp) (by decide) hp0 hp2 hp3
+    simpa using this
+  rw [hproto]
+  unfold readHeaders
+  rw [iterate_headers hs tail hw.headers_ok _ { s with inp := hdrBlock hs ++ 13 :: 10 :: tail } [] [] [] he hc rfl
+    (by have := hdrBlock_length hs; simp only [List.length_append, List.length_cons]; omega)]
+  simp only []
+  have hfold : List.foldl (fun d nv => storeHeader d nv.fst nv.snd) [] hs = hdrDic hs := rfl
+  simp only [hfold]
+  rw [expectContinue_open _ _ (show ({ s with inp := tail } : Sock).closed = false from hc)]
+  simp only [hte, Bool.false_eq_true, if_false]
+  cases readBody { s with inp := tail, out := s.out ++ interim (hdrDic hs) } (hdrDic hs) with
+  | error e => rfl
+  | ok b =>
+    cases parseTarget t with
+    | error e => rfl
+    | ok tg => rfl
+
+/-- without a Content-Length field, `Expect: 100-continue` is always answered `100 Continue` -/
+theorem interim_no_length (h : Dic) (hcl : hasHeader h sContentLength = false) :
+    interim h = if cstr (header h sExpect) = s100continue then sContinue else [] := by
+  unfold interim
+  rw [header_of_not_has _ _ hcl]
+  by_cases hx : cstr (header h sExpect) = s100continue
+  · simp only [hx, if_true]; decide
+  · have hb : (cstr (header h sExpect) == s100continue) = false := by simp [hx]
+    simp only [hb, hx, if_false, Bool.false_eq_true]
+
+/-- chunked framing with any `Expect` field (`read_faithful_chunked_aux` without `no_expect`) -/
+theorem read_faithful_chunked_x (s : Sock) (m t p : Bytes) (hs : List (Bytes × Bytes)) (cs : List Chunk)
+    (sizeLine rest : Bytes) (hw : HeadOkX m t p hs) (hcs : ∀ c ∈ cs, ChunkOk c)
+    (hlf : ∀ b ∈ sizeLine, b ≠ 10) (hshort : sizeLine.length ≤ 16000) (hok : chunkLineOk (sizeLine ++ [13]) = true)
+    (hz : hexToInt (sizeLine ++ [13]) = 0)
+    (hcl : hasHeader (hdrDic hs) sContentLength = false)
+    (hte : isChunked (header (hdrDic hs) sTransferEncoding) = true)
+    (he : s.err = 0) (hc : s.closed = false)
+    (hi : s.inp = m ++ 32 :: (t ++ 32 :: (p ++ 13 :: 10 :: (hdrBlock hs ++ 13 :: 10 ::
+            (cs.flatMap Chunk.bytes ++ (sizeLine ++ 13 :: 10 :: 13 :: 10 :: rest)))))) :
+    ∃ tg, parseTarget t = .ok tg ∧
+      AslModel.HttpParse.read s = .ok (mkReq m t p tg (hdrDic hs) (cs.map Chunk.data).flatten,
+        { s with inp := rest, out := s.out ++ interim (hdrDic hs) }) := by
+  obtain ⟨tg, htg, _, _⟩ := parseTarget_ok t
+  refine ⟨tg, htg, ?_⟩
+  rw [read_head_x s m t p hs _ hw (by simp [hte]) he hc hi]
+  rw [readBody_chunked { s with inp := cs.flatMap Chunk.bytes ++ (sizeLine ++ 13 :: 10 :: 13 :: 10 :: rest),
+                                 out := s.out ++ interim (hdrDic hs) } (hdrDic hs) cs sizeLine rest hcs hlf hshort hok hz
+        he hc rfl hcl hte]
+  simp only [htg]
+
 end AslProofs.HttpExpect
